@@ -187,6 +187,17 @@ def run(rep, tier):
                     continue         # the declaration, not a call
                 if not (arg.strip() == "_ffi" or (arg.strip() == "index" and c["contiguous"])):
                     bad("dart", "enum receiver sent to Rust as its position although the enum is not 0..n-1", {"argument": arg, "discs": discs})
+            # return sites: an enum coming back (by value, or inside an Option) is looked up by value unless the enum is 0..n-1
+            for mname in ("rt", "opt"):
+                mb = re.search(r'\n  %s\?? %s\(\) \{(.*?)\n  \}' % (f, mname), t, re.S)
+                if not mb:
+                    bad("dart", "method %s not generated" % mname, {})
+                    continue
+                body = mb.group(1)
+                by_value = "firstWhere((v) => v._ffi == result" in body
+                by_pos = re.search(r'values\[result', body)
+                if not (by_value or (by_pos and c["contiguous"])):
+                    bad("dart", "enum converted by position at a return site", {"method": mname, "body": body.strip()[:300]})
         if "kotlin" in outs:
             kt = [os.path.join(rr, x) for rr, _, fs in os.walk(outs["kotlin"]) for x in fs if x == f + ".kt"][0]
             t = open(kt).read()
@@ -202,6 +213,19 @@ def run(rep, tier):
             else:
                 if "this.ordinal" not in t or ".entries[native]" not in t or not c["contiguous"]:
                     bad("kotlin", "position scheme used for a non-contiguous enum", {"text": t[:600]})
+            # use sites: every method that sends the enum to Rust or gets one back (by value, or inside an Option) converts through the
+            # enum's own toNative / fromNative (by discriminant) -- never through its position (entries, values(), ordinal), unless the
+            # class itself uses the position scheme
+            for mname in ("rt", "opt"):
+                mb = re.search(r'\n    fun %s\(\)[^{]*\{(.*?)\n    \}' % mname, t, re.S)
+                if not mb:
+                    bad("kotlin", "method %s not generated" % mname, {})
+                    continue
+                body = mb.group(1)
+                by_table = ("%s.fromNative(" % f) in body and "this.toNative()" in body
+                by_pos = re.search(r'\bentries\b|\bvalues\(\)|\bordinal\b', body)
+                if (tab and (by_pos or not by_table)) or (not tab and not c["contiguous"]):
+                    bad("kotlin", "enum converted by position at a use site", {"method": mname, "body": body.strip()[:400]})
         if "nanobind" in outs:
             t = open(os.path.join(outs["nanobind"], "somelib_ext.cpp")).read()
             m = re.search(r'nb::enum_<%s::Value>\(e_class, "%s"\)(.*?)\.export_values' % (f, f), t, re.S)
